@@ -2,7 +2,9 @@ import MosdnsVerif.Driver.Handler
 import MosdnsVerif.Model.C15
 
 /-! Model driver of C15: `reply ...` lines go to the shared handler driver; `life <chain> <tx> ...` lines run
-successive client transactions over one cache entry (`Model.C15.transact` with `copyNoOpt` as regenerated). -/
+successive client transactions over one cache entry (`Model.C15.transact` with the regenerated facts, `genCode`);
+`fork <mode> <query> <adopted branch> <discarded branches>` lines run one transaction through a plugin that runs
+sub-queries on copies of the context (`Model.C15.fork`). -/
 namespace Driver.C15
 open Model.Handler Model.C15
 
@@ -16,12 +18,15 @@ def opts? (s : String) : Option (List (Nat × Nat)) :=
 def showOpts (l : List (Nat × Nat)) : String :=
   if l.isEmpty then "-" else String.intercalate "+" (l.map (fun p => s!"{p.1}.{p.2}"))
 
-/-- `f:<codes|->`, `c`, `t` -/
+/-- `f:<codes|->`, `c`, `t`, `e:<forward>:<own payload|->` -/
 def plugin? (s : String) : Option Plugin :=
   match s.splitOn ":" with
   | ["c"] => some .cache
   | ["t"] => some .ttl
   | ["f", cs] => if cs == "-" then some (.fwd []) else ((cs.splitOn "+").mapM String.toNat?).map .fwd
+  | ["e", fw, own] => do
+    let fw ← Hex.bool? fw
+    if own == "-" then pure (.ecs fw none) else pure (.ecs fw (some (← own.toNat?)))
   | _ => none
 
 /-- `-` or `<size>:<do>:<opts>` -/
@@ -73,10 +78,33 @@ def showTx (t : Tx) : String :=
 def life (chain : List Plugin) : List (Msg × Up) → Slot → List String
   | [], _ => []
   | (q, up) :: rest, s =>
-    let t := transact copyAliases chain up q s
+    let t := transact genCode chain up q s
     showTx t :: life chain rest t.slot
 
+/-- `<chain|->@<up>` -/
+def branch? (s : String) : Option Branch :=
+  match s.splitOn "@" with
+  | [ch, u] => do
+    let ps ← (if ch == "-" then some [] else (ch.splitOn ",").mapM plugin?)
+    pure ⟨ps, ← up? u⟩
+  | _ => none
+
+def mode? (s : String) : Option Adopt :=
+  match s with
+  | "fb" => some .fallback
+  | "sel" => some .selector
+  | "lazy" => some (.lazy { id := 0, qr := true, question := [⟨[97], 1, 1⟩], answer := [.rr [97] 1 300 0] })
+  | _ => none
+
 def handle : List String → String
+  | ["fork", mode, q, w, ds] =>
+    match mode? mode, tx? (q ++ "/none"), (if w == "-" then some none else (branch? w).map some),
+          (if ds == "-" then some [] else (ds.splitOn ";").mapM branch?) with
+    | some mode, some (q, _), some w, some ds =>
+      match reply (fork genCode mode ds w) (fun m _ => m) false q with
+      | none => "drop"
+      | some r => if packable r then s!"id={r.id} rc={r.rcode} opt={showOptSide r.extra}" else "drop"
+    | _, _, _, _ => "bad-op"
   | "life" :: chain :: txs =>
     match (chain.splitOn ",").mapM plugin?, txs.mapM tx? with
     | some ch, some ts => String.intercalate " ~ " (life ch ts .empty)
